@@ -9,6 +9,7 @@ mod hashiter;
 mod iterinj;
 mod reorg;
 mod addinstr;
+mod emit;
 
 #[macro_export]
 macro_rules! shape_changed {
@@ -47,6 +48,7 @@ fn main() {
         "GenIterInj" => iterinj::generate(&a[2], &a[3]),
         "GenReorg" => reorg::generate(&a[2], &a[3]),
         "GenAddInstr" => addinstr::generate(&a[2], &a[3]),
+        "GenEmit" => emit::generate(&a[2], &a[3]),
         other => { eprintln!("unknown generator {other}"); std::process::exit(2) }
     }
 }
